@@ -160,6 +160,7 @@ func (in *Interp) initStubs() {
 			return nil, stYield
 		}
 		m.writer = true
+		in.raceAcquire(m)
 		return nil, stDone
 	}
 	s["(*sync.Mutex).TryLock"] = func(in *Interp, th *Thread, fn *ssa.Function, a []Value) (Value, stubStatus) {
@@ -171,6 +172,7 @@ func (in *Interp) initStubs() {
 			return tb.F, stDone
 		}
 		m.writer = true
+		in.raceAcquire(m)
 		return tb.T, stDone
 	}
 	s["(*sync.Mutex).Unlock"] = func(in *Interp, th *Thread, fn *ssa.Function, a []Value) (Value, stubStatus) {
@@ -180,6 +182,7 @@ func (in *Interp) initStubs() {
 			return nil, stPanicked
 		}
 		m.writer = false
+		in.raceRelease(m)
 		return nil, stDone
 	}
 	s["(*sync.RWMutex).Lock"] = s["(*sync.Mutex).Lock"]
@@ -191,6 +194,7 @@ func (in *Interp) initStubs() {
 			return nil, stYield
 		}
 		m.readers++
+		in.raceAcquire(m)
 		return nil, stDone
 	}
 	s["(*sync.RWMutex).RUnlock"] = func(in *Interp, th *Thread, fn *ssa.Function, a []Value) (Value, stubStatus) {
@@ -200,6 +204,7 @@ func (in *Interp) initStubs() {
 			return nil, stPanicked
 		}
 		m.readers--
+		in.raceRelease(m)
 		return nil, stDone
 	}
 	s["(*sync.WaitGroup).Add"] = func(in *Interp, th *Thread, fn *ssa.Function, a []Value) (Value, stubStatus) {
@@ -218,6 +223,7 @@ func (in *Interp) initStubs() {
 			return nil, stYield
 		}
 		in.wgs[c]--
+		in.raceRelease(c)
 		if in.wgs[c] < 0 {
 			in.goPanic(th, "sync: negative WaitGroup counter")
 			return nil, stPanicked
@@ -229,19 +235,23 @@ func (in *Interp) initStubs() {
 		if !in.visible(th, th.top(), "WaitGroup.Wait", func() bool { return in.wgs[c] == 0 }) {
 			return nil, stYield
 		}
+		in.raceAcquire(c)
 		return nil, stDone
 	}
 	s["(*sync.Once).Do"] = func(in *Interp, th *Thread, fn *ssa.Function, a []Value) (Value, stubStatus) {
 		c := cellOf(a[0])
 		if in.onceDone[c] {
+			in.raceAcquire(c)
 			return nil, stDone
 		}
 		in.onceDone[c] = true
 		in.callSync(th, a[1].(FuncV), nil)
+		in.raceRelease(c)
 		return nil, stDone
 	}
 	s["(*sync.Pool).Get"] = func(in *Interp, th *Thread, fn *ssa.Function, a []Value) (Value, stubStatus) {
 		c := cellOf(a[0])
+		in.raceAcquire(c)
 		st := in.pools[c]
 		if n := len(st); n > 0 {
 			v := st[n-1]
@@ -263,6 +273,7 @@ func (in *Interp) initStubs() {
 	}
 	s["(*sync.Pool).Put"] = func(in *Interp, th *Thread, fn *ssa.Function, a []Value) (Value, stubStatus) {
 		c := cellOf(a[0])
+		in.raceRelease(c)
 		in.pools[c] = append(in.pools[c], a[1])
 		return nil, stDone
 	}
@@ -285,6 +296,7 @@ func (in *Interp) initStubs() {
 			return nil, stYield
 		}
 		c := cellOf(a[0])
+		in.raceAcqRel(c)
 		if i := smFind(in, c, a[1]); i >= 0 {
 			return TupleV{in.syncMaps[c][i].v, in.tb.T}, stDone
 		}
@@ -295,6 +307,7 @@ func (in *Interp) initStubs() {
 			return nil, stYield
 		}
 		c := cellOf(a[0])
+		in.raceAcqRel(c)
 		if i := smFind(in, c, a[1]); i >= 0 {
 			in.syncMaps[c][i].v = a[2]
 		} else {
@@ -307,6 +320,7 @@ func (in *Interp) initStubs() {
 			return nil, stYield
 		}
 		c := cellOf(a[0])
+		in.raceAcqRel(c)
 		if i := smFind(in, c, a[1]); i >= 0 {
 			return TupleV{in.syncMaps[c][i].v, in.tb.T}, stDone
 		}
@@ -318,6 +332,7 @@ func (in *Interp) initStubs() {
 			return nil, stYield
 		}
 		c := cellOf(a[0])
+		in.raceAcqRel(c)
 		if i := smFind(in, c, a[1]); i >= 0 {
 			v := in.syncMaps[c][i].v
 			in.syncMaps[c] = append(append([]syncMapEntry(nil), in.syncMaps[c][:i]...), in.syncMaps[c][i+1:]...)
@@ -330,6 +345,7 @@ func (in *Interp) initStubs() {
 			return nil, stYield
 		}
 		c := cellOf(a[0])
+		in.raceAcqRel(c)
 		if i := smFind(in, c, a[1]); i >= 0 {
 			in.syncMaps[c] = append(append([]syncMapEntry(nil), in.syncMaps[c][:i]...), in.syncMaps[c][i+1:]...)
 		}
@@ -340,6 +356,7 @@ func (in *Interp) initStubs() {
 			return nil, stYield
 		}
 		c := cellOf(a[0])
+		in.raceAcqRel(c)
 		// a snapshot in insertion order (Range promises no particular order; the callbacks in go-coap only collect)
 		snap := append([]syncMapEntry(nil), in.syncMaps[c]...)
 		for _, e := range snap {
@@ -357,6 +374,7 @@ func (in *Interp) initStubs() {
 			return nil, stYield
 		}
 		c := cellOf(a[0])
+		in.raceAcqRel(c)
 		if v, ok := c.kids[0].v.(IfaceV); ok {
 			return v, stDone
 		}
@@ -367,6 +385,7 @@ func (in *Interp) initStubs() {
 			return nil, stYield
 		}
 		c := cellOf(a[0])
+		in.raceAcqRel(c)
 		c.kids[0].v = a[1]
 		return nil, stDone
 	}
@@ -375,6 +394,7 @@ func (in *Interp) initStubs() {
 			return nil, stYield
 		}
 		c := cellOf(a[0])
+		in.raceAcqRel(c)
 		old, _ := c.kids[0].v.(IfaceV)
 		c.kids[0].v = a[1]
 		return old, stDone
@@ -384,6 +404,7 @@ func (in *Interp) initStubs() {
 			return nil, stYield
 		}
 		c := cellOf(a[0])
+		in.raceAcqRel(c)
 		old, _ := c.kids[0].v.(IfaceV)
 		eq := in.valuesEqual(old, a[1])
 		if in.branch(eq, "cas") {
@@ -750,6 +771,11 @@ func stubAtomicIntrinsic(in *Interp, th *Thread, fn *ssa.Function, a []Value) (V
 		return nil, stPanicked
 	}
 	f := th.top()
+	if in.race != nil {
+		in.raceAcqRel(p.c)
+		in.race.quiet++
+		defer func() { in.race.quiet-- }()
+	}
 	switch {
 	case strings.HasPrefix(name, "Load"):
 		return in.loadPtr(p, f), stDone
